@@ -3,7 +3,8 @@
 From Coq Require Import String Ascii List Bool.
 From KV Require Import Lib.Str Model.Vpp Gen.UmlSrc Model.Uml Spec.UmlSpec Proofs.UmlProofs Proofs.UmlFiles
                        Model.UmlBlob Model.UmlWriter Gen.UmlBlobShipped Proofs.UmlBlobDefs Proofs.UmlBlobStruct Proofs.UmlBlobText
-                       Proofs.UmlBlobTop Proofs.UmlBlobRound Proofs.UmlBlobVis Proofs.UmlBlobCompose Proofs.UmlBlobCalib Proofs.UmlBlobPins.
+                       Proofs.UmlBlobTop Proofs.UmlBlobRound Proofs.UmlBlobVis Proofs.UmlBlobCompose Proofs.UmlBlobCalib Proofs.UmlBlobPins
+                       Model.UmlSem Proofs.UmlSemExample Proofs.UmlSemTop.
 Import ListNotations.
 Open Scope string_scope.
 
@@ -147,12 +148,11 @@ Theorem C19_adaptor_text_transparent : forall n : wnode,
 Proof. exact parse_top. Qed.
 Print Assumptions C19_adaptor_text_transparent.
 
-(* Read-back at the dictionary level.
-   FULL STATEMENT (not proved): load_cdiagram (encode_cdiagram (tree_of S)) = Some S for a SEMANTIC class diagram S (classes
-   with flags, operations, parameters ...) and a semantic writer tree_of.  What is proved: loading the project the writer
-   produces equals loading with ParseBLOB_Recursive replaced by the structural reading of the drawn blobs (struct_of); the
-   object builders (stereotypes -> flags, operations, parameters, namespaces ...) then work on those dictionaries; that they
-   rebuild a semantic class is tied by differential runs only (harness: synthesised projects read back). *)
+(* Read-back at the dictionary level, for EVERY structured class diagram (associations included).
+   FULL STATEMENT for what remains: C19_adaptor_roundtrip (below) with associations in the semantic diagram -- the semantic
+   domain has no association ends yet -- and with values that contain ',' (default values such as "nullptr, nullptr") or free
+   text with braces / separators (HTML documentation; K-C19-6).  What is proved here: loading the project the writer produces
+   equals loading with ParseBLOB_Recursive replaced by the structural reading of the drawn blobs (struct_of). *)
 Theorem C19_adaptor_roundtrip_partial : forall W : wdiagram, wf_drawn W = true ->
   load_cdiagram (encode_cdiagram W) (wd_name W) = load_gen (get_model_element (cmelem_rows W)) (struct_of W) (cdelem_rows W).
 Proof. exact load_struct. Qed.
@@ -230,3 +230,67 @@ Print Assumptions C19_adaptor_name_refuted.
 Theorem C19_adaptor_source_shape : adaptor_literals_expected.
 Proof. exact pins_all. Qed.
 Print Assumptions C19_adaptor_source_shape.
+
+(* ====================================================================================================================
+   THE SEMANTIC READ-BACK.  D : sdiagram (Model/UmlSem.v) = a class diagram as what it MEANS: classes with stereotypes,
+   abstract flag, documentation, operations (visibility, return type reference, modifier, abstract / query / static,
+   parameters with basic or referenced type, direction, modifier, default, multiplicity), attributes, enumeration literals;
+   packages with the paths of their members; generalisations / realisations between paths; other shapes; the referenced
+   elements (stereotypes, data types).  Every element carries a layout: its properties in ANY order with any noise
+   properties in between.  encode_project D = the project file the assumed writer produces (tree_of: the structured blobs).
+   cdiagram_of D / rdiagram_of D = the specification (it never looks at a blob): names, namespaces from the package chain,
+   stereotype flags, visibility, parameters with direction / multiplicity / default, realisation vs generalisation, exactly
+   the shapes of the selected diagram.
+   Domain sdiagram_ok (boolean, extracted, evaluated by the harness on every generated diagram): names / values / ids plain,
+   brace-free, without ',' and apostrophe, no blank at the ends; ids and element names without ':'; noise keys not among the
+   keys the reader looks for; no property key written twice; type names unchanged by CleanModifiersFromType; every referenced
+   id known; every element drawn once; a class on at most one package path; package paths made of drawn packages. *)
+Theorem C19_adaptor_roundtrip : forall D : sdiagram, sdiagram_ok D = true ->
+  adaptor (encode_project D) (sd_name D) = Some (cdiagram_of D).
+Proof. exact adaptor_roundtrip. Qed.
+Print Assumptions C19_adaptor_roundtrip.
+
+(* ... object for object: Class / Operation / Attribute / Package / Inheritance objects read back exactly as specified *)
+Theorem C19_adaptor_roundtrip_objects : forall D : sdiagram, sdiagram_ok D = true ->
+  load_cdiagram (encode_project D) (sd_name D) = Some (rdiagram_of D).
+Proof. exact load_roundtrip. Qed.
+Print Assumptions C19_adaptor_roundtrip_objects.
+
+(* ... from ANY project that contains the diagram's rows *)
+Theorem C19_adaptor_roundtrip_hosted : forall (D : sdiagram) (d : db), sdiagram_ok D = true -> chosts d (tree_of D) = true ->
+  adaptor d (sd_name D) = Some (cdiagram_of D).
+Proof. exact adaptor_roundtrip_hosted. Qed.
+Print Assumptions C19_adaptor_roundtrip_hosted.
+
+Example C19_adaptor_roundtrip_nonvacuous :
+  (sdiagram_ok ex_S = true /\ wf_drawn (tree_of ex_S) = true) /\ load_cdiagram (encode_project ex_S) "Example" = Some (rdiagram_of ex_S).
+Proof. exact (conj ex_in_domain ex_read_back). Qed.
+Print Assumptions C19_adaptor_roundtrip_nonvacuous.
+
+(* The generator theorems from the semantic diagram THROUGH the project file. *)
+Theorem C19_files_from_diagram : forall (D : sdiagram) (d : db) (nsf : bool),
+  sdiagram_ok D = true -> chosts d (tree_of D) = true -> files_hyp nsf (cdiagram_of D) = true ->
+  adaptor d (sd_name D) = Some (cdiagram_of D) /\ files_of template_files nsf (cdiagram_of D) = expected_files nsf (cdiagram_of D).
+Proof. exact files_from_diagram. Qed.
+Print Assumptions C19_files_from_diagram.
+
+Theorem C19_decl_def_from_diagram : forall (D : sdiagram) (d : db) (k : cls) (P : entry -> bool),
+  sdiagram_ok D = true -> chosts d (tree_of D) = true ->
+  acyclic (cdiagram_of D) = true -> closed (cdiagram_of D) = true -> In k (classes (cdiagram_of D)) ->
+  adaptor d (sd_name D) = Some (cdiagram_of D)
+  /\ exists dl df, decls_of (List.length (classes (cdiagram_of D))) (cdiagram_of D) k = Some dl
+                   /\ defs_of (List.length (classes (cdiagram_of D))) (cdiagram_of D) k = Some df /\ count P dl = count P df.
+Proof. exact decl_def_from_diagram. Qed.
+Print Assumptions C19_decl_def_from_diagram.
+
+Theorem C19_realised_from_diagram : forall (D : sdiagram) (d : db) fuel vis dcl (k : cls) (i : inh) (p : cls) (o : oper) l,
+  sdiagram_ok D = true -> chosts d (tree_of D) = true ->
+  In i (inhs (cdiagram_of D)) -> contains (c_id k) (i_to i) = true -> i_real i = true ->
+  find_class (classes (cdiagram_of D)) (i_from i) = Some p -> c_pure p = true ->
+  In o (c_ops p) -> vis_match vis o = true -> c_name k <> "" ->
+  existsb (key_eqb (sig_key o)) (declared_of k) = false ->
+  ops_of (S (S fuel)) (cdiagram_of D) vis "" dcl k = Some l ->
+  adaptor d (sd_name D) = Some (cdiagram_of D)
+  /\ In {| en_class := c_name k; en_owner := c_name p; en_owner_pure := true; en_realised := true; en_op := o |} l.
+Proof. exact realised_from_diagram. Qed.
+Print Assumptions C19_realised_from_diagram.
